@@ -5,11 +5,13 @@ import (
 	"bufio"
 	"context"
 	"encoding/json"
+	"errors"
 	"flag"
 	"fmt"
 	"os"
 	"reflect"
 	"strings"
+	"time"
 
 	"github.com/sdcio/yang-parser/xpath"
 	"github.com/sdcio/yang-parser/xpath/grammars/expr"
@@ -60,8 +62,48 @@ func mapFn(prefix string) (string, error) {
 	return "", fmt.Errorf("unknown prefix %q", prefix)
 }
 
-// compile under a panic trap
+// A call into the library that does not come back: waited for hangFirst, then for hangConfirm more (a starved
+// goroutine on a loaded machine comes back, an endless loop does not).  The goroutine is left behind; after
+// maxHangs of them the process stops feeding inputs (each one burns a core).
+const (
+	hangFirst   = 5 * time.Second
+	hangConfirm = 25 * time.Second
+	maxHangs    = 3
+)
+
+var nHangs int
+
+func watchdog(f func()) (hung bool) {
+	done := make(chan struct{})
+	go func() {
+		defer close(done)
+		f()
+	}()
+	select {
+	case <-done:
+		return false
+	case <-time.After(hangFirst):
+	}
+	select {
+	case <-done:
+		return false
+	case <-time.After(hangConfirm):
+		nHangs++
+		return true
+	}
+}
+
+var errHang = errors.New("VERIF-HANG: the call did not return")
+
+// compile under a panic trap and a watchdog
 func compile(text string) (m *xpath.Machine, err error, panicked interface{}) {
+	if watchdog(func() { m, err, panicked = compileRaw(text) }) {
+		return nil, errHang, nil
+	}
+	return
+}
+
+func compileRaw(text string) (m *xpath.Machine, err error, panicked interface{}) {
 	defer func() {
 		if r := recover(); r != nil {
 			panicked = r
@@ -115,6 +157,7 @@ type RunResult struct {
 	Calls  []xpm.Call
 	Events []xpm.Event
 	Panic  interface{}
+	Hang   bool
 }
 
 var curSink func(xpath.VerifEvent)
@@ -134,8 +177,17 @@ func callsNorm(cs []xpm.Call) []xpm.Call {
 	return cs
 }
 
-// run the machine once on a fresh mock tree, collecting trace events
+// run the machine once on a fresh mock tree, collecting trace events; under a watchdog
 func runOnce(id int, m *xpath.Machine, failAt int, trace bool) (rr RunResult) {
+	var inner RunResult
+	if watchdog(func() { inner = runOnceRaw(id, m, failAt, trace) }) {
+		curSink = nil
+		return RunResult{Hang: true, Err: errHang.Error(), BErr: errHang.Error(), Calls: []xpm.Call{}}
+	}
+	return inner
+}
+
+func runOnceRaw(id int, m *xpath.Machine, failAt int, trace bool) (rr RunResult) {
 	tree := &xpm.Tree{FailAt: failAt}
 	seen := 0
 	if trace {
@@ -247,7 +299,7 @@ func replay(args []string) {
 		tenc = json.NewEncoder(tw)
 	}
 	id := 0
-	nvec, nmis, ntrace, nunknown := 0, 0, 0, 0
+	nvec, nmis, ntrace, nunknown, nskipped := 0, 0, 0, 0, 0
 	emit := func(id int, text string, prog []xpm.Ins, failAt int, rr RunResult) {
 		if tenc == nil {
 			return
@@ -278,7 +330,17 @@ func replay(args []string) {
 			nvec++
 			o := Outcome{ID: id, Fam: v.Fam, Expr: v.Expr, VClass: v.VClass, Mism: []Mism{}}
 			text := xpm.ToReal(v.Expr)
+			if nHangs >= maxHangs {
+				nskipped++
+				continue
+			}
 			m, cerr, pan := compile(text)
+			if cerr == errHang {
+				o.Mism = append(o.Mism, Mism{"hang", "compilation returns", "NewExprMachine did not return within 30 s"})
+				oenc.Encode(o)
+				nmis++
+				continue
+			}
 			if pan != nil || cerr != nil || m == nil {
 				o.Mism = append(o.Mism, Mism{"compile", "ok", fmt.Sprint(cerr, pan)})
 				oenc.Encode(o)
@@ -296,6 +358,12 @@ func replay(args []string) {
 				o.Mism = append(o.Mism, Mism{"prog", v.Prog, prog})
 			}
 			rr := runOnce(id, m, 0, tenc != nil && known)
+			if rr.Hang {
+				o.Mism = append(o.Mism, Mism{"hang", "the run returns", "Run did not return within 30 s"})
+				oenc.Encode(o)
+				nmis++
+				continue
+			}
 			if known {
 				emit(id, text, prog, 0, rr)
 			}
@@ -348,7 +416,14 @@ func replay(args []string) {
 			}
 			if *faults {
 				for k := 1; k <= len(v.Calls); k++ {
+					if nHangs >= maxHangs {
+						break
+					}
 					rf := runOnce(id, m, k, tenc != nil && known)
+					if rf.Hang {
+						o.Mism = append(o.Mism, Mism{"hang", "the run returns", fmt.Sprintf("Run with callback %d failing did not return within 30 s", k)})
+						continue
+					}
 					if known {
 						emit(id, text, prog, k, rf)
 					}
@@ -369,7 +444,7 @@ func replay(args []string) {
 		}
 		f.Close()
 	}
-	fmt.Fprintf(os.Stderr, "replayed %d vectors, %d with mismatches, %d traces, %d listings outside the instruction vocabulary\n", nvec, nmis, ntrace, nunknown)
+	fmt.Fprintf(os.Stderr, "replayed %d vectors, %d with mismatches, %d traces, %d listings outside the instruction vocabulary, %d vectors skipped after %d hangs\n", nvec, nmis, ntrace, nunknown, nskipped, nHangs)
 }
 
 // record: run expression texts (one per line) and log the instruction-level traces;
